@@ -153,6 +153,13 @@ def gen_case(rnd, spec):
     if spec["case_index"] == 2 and spec["shard"] in (11, 12):
         forced, kind = "stubborn", "valid"
         elems.insert(0, ["VSvcStubborn", "svcS", {"label": "svcS", "period": rnd.choice([0.02, 0.05])}])
+    if spec["case_index"] == 3 and spec["shard"] in (13, 14):
+        # a service of each coroutine flavour that ends by returning a value that is not None but false
+        forced, kind = "falsy_return", "failing"
+        tag = "VSvcTrioDeco" if spec["shard"] == 13 else "VSvcDeco"
+        elems.insert(0, [tag, "svcF", {"label": "svcF", "period": 0.05}])
+    if spec["case_index"] == 3 and spec["shard"] == 15:
+        forced, kind, fmt = "bad_logging", "invalid", "yaml"
     slow = spec["case_index"] == 0 and spec["shard"] in (0, 1)  # the recorded finding, exercised on every run
     if slow:
         kind = "valid"
@@ -168,7 +175,13 @@ def gen_case(rnd, spec):
             victims = [elems[-1]]
         v = rnd.choice(victims)
         v[2]["fail_after"] = rnd.choice([0, 1, 3, 6])
-        v[2]["fail_how"] = rnd.choice(["raise", "return", "raise", "return", "systemexit", "base"])
+        v[2]["fail_how"] = rnd.choice(["raise", "return", "raise", "return", "systemexit", "base", "return_false", "return_zero", "return_empty", "return_emptystr"])
+        if forced == "falsy_return":
+            if v is not elems[0]:
+                v[2].pop("fail_after"), v[2].pop("fail_how")
+                v = elems[0]
+                v[2]["fail_after"] = rnd.choice([0, 1, 3])
+            v[2]["fail_how"] = rnd.choice(["return_false", "return_zero", "return_empty", "return_emptystr"])
         if forced == "thread_base_failure":
             if v is not elems[0]:
                 v[2].pop("fail_after"), v[2].pop("fail_how")
@@ -179,14 +192,14 @@ def gen_case(rnd, spec):
     text = yaml_text(rnd, elems, case["logging"], case["extra"]) if fmt == "yaml" else python_text(rnd, elems)
     if kind == "invalid":
         defect = rnd.choice(["unknown_section", "missing_pipeline", "ctor_error", "syntax", "unknown_tag", "py_raises", "bad_extension", "no_extension", "missing_file",
-                             "python_tag"])
-        if fmt == "python" and defect in ("unknown_section", "missing_pipeline", "syntax", "unknown_tag", "python_tag"):
+                             "python_tag", "bad_logging"])
+        if fmt == "python" and defect in ("unknown_section", "missing_pipeline", "syntax", "unknown_tag", "python_tag", "bad_logging"):
             defect = rnd.choice(["py_raises", "ctor_error", "bad_extension"])
         if fmt == "yaml" and defect == "py_raises":
             defect = "unknown_tag"
         if forced == "compiled_config":
             defect = "bad_extension"
-        if forced in ("broken_element", "pipeline_not_a_list"):
+        if forced in ("broken_element", "pipeline_not_a_list", "bad_logging"):
             defect = forced
         elif rnd.random() < 0.12 and fmt == "yaml":
             defect = rnd.choice(["broken_element", "pipeline_not_a_list"])
@@ -217,6 +230,10 @@ def gen_case(rnd, spec):
             text = text.replace("pipeline:\n", "pipeline:\n  - !NoSuchPlugin {a: 1}\n", 1)
         elif defect == "python_tag":
             text = text.replace("pipeline:\n", "pipeline:\n  - !!python/object/apply:os.getcwd []\n", 1)
+        elif defect == "bad_logging":
+            # a logging section that is there but is no logging configuration: empty, null, a list, without a version
+            bad = rnd.choice(["logging:\n", "logging: {}\n", "logging: []\n", "logging: ~\n", "logging: {handlers: {}}\n", "logging: 0\n", "logging: ''\n"])
+            text = bad + "".join(line + "\n" for line in text.splitlines() if not line.startswith("logging:"))
         elif defect == "py_raises":
             text += "raise RuntimeError('configuration module failed on purpose')\n"
         if defect == "bad_extension":
@@ -336,6 +353,8 @@ def execute(case, result):
             if not failing:
                 bad("the service never reached its failure (exit status %s)" % run.exit_code)
             result.count("failing_services_%s" % ("after_start" if failing else "unreached"))
+            if failing and str(failing[0].get("how")).startswith("return_"):
+                result.count("failing_services_returning_a_false_value_%s" % flavour.get(failing[0]["label"], "?"))
             if failing and failing[0].get("how") in ("systemexit", "base"):
                 result.count("failing_services_with_base_exception_%s" % flavour.get(failing[0]["label"], "?"))
         else:
@@ -357,7 +376,7 @@ def finish(total, tier):
     need = ["daemons_valid", "daemons_invalid", "daemons_failing", "configs_yaml", "configs_python", "services_checked_trio",
             "services_checked_asyncio", "services_checked_threading", "failing_services_after_start", "valid_with_logging_section", "falsy_services_checked", "private_waiter_services_checked", "services_in_large_injected_configs",
             "failing_services_with_base_exception_threading", "defect_unknown_extension_with_byte_compiled_config",
-            "defect_broken_element", "defect_pipeline_not_a_list", "python_configs_named_like_a_module_they_import", "configs_with_more_than_one_dot_in_the_file_name", "python_configs_defining_a_dataclass", "services_of_a_class_decorated_twice_checked", "services_that_absorb_one_cancellation_checked", "large_configs_of_mostly_trio_services"]
+            "defect_broken_element", "defect_pipeline_not_a_list", "defect_bad_logging", "failing_services_returning_a_false_value_trio", "failing_services_returning_a_false_value_asyncio", "python_configs_named_like_a_module_they_import", "configs_with_more_than_one_dot_in_the_file_name", "python_configs_defining_a_dataclass", "services_of_a_class_decorated_twice_checked", "services_that_absorb_one_cancellation_checked", "large_configs_of_mostly_trio_services"]
     for name in need:
         if not total.counters.get(name) and not total.violations:
             total.inconc("monitor never observed: " + name)
